@@ -12,13 +12,15 @@ static CC_DequeZipIter zit;   static int zit_a = -1, zit_b = -1;
 
 static int sparse;           /* obs=sparse on a constructor line: no content sweep except in `observe` */
 static bool sweep_now;
-static void shim_reset(void) { sparse = 0; for (int i = 0; i < NSLOT; i++) D[i] = NULL; it_slot = zit_a = zit_b = -1; }
+static int quiet;            /* phys=quiet on a constructor line: buffer checksum instead of the dump, except in `observe` */
+static bool dump_now;
+static void shim_reset(void) { sparse = 0; quiet = 0; for (int i = 0; i < NSLOT; i++) D[i] = NULL; it_slot = zit_a = zit_b = -1; }
 static void forget_iters(int k) { if (it_slot == k) it_slot = -1; if (zit_a == k || zit_b == k) zit_a = zit_b = -1; }
 
 static void obs_all(void) { for (int k = 0; k < NSLOT; k++) if (D[k]) obs_deque("d", k, D[k]); }
 static void phys_all(void) {
     size_t start = olen; bool any = false;
-    for (int k = 0; k < NSLOT; k++) if (D[k]) { phys_deque("d", k, D[k]); any = true; }
+    for (int k = 0; k < NSLOT; k++) if (D[k]) { phys_deque("d", k, D[k], dump_now); any = true; }
     if (it_slot >= 0) { o(" it=%d:%zu:%d", it_slot, it.index, (int)it.last_removed); any = true; }
     if (zit_a >= 0) { o(" zit=%d:%d:%zu:%d", zit_a, zit_b, zit.index, (int)zit.last_removed); any = true; }
     if (!any) { o("-"); return; }
@@ -34,10 +36,11 @@ static void do_op(Cmd *c) {
     void *out = PTR(777777);
     enum cc_stat st;
     if (k < 0 || k >= NSLOT || to < 0 || to >= NSLOT) { o("st=- badslot"); o_sep(); o("-"); return; }
-    sweep_now = !sparse;
-    if (is_op(c, "observe")) { sweep_now = true; o("st=-");
+    sweep_now = !sparse; dump_now = !quiet;
+    if (is_op(c, "observe")) { sweep_now = true; dump_now = true; o("st=-");
     } else if (is_op(c, "new")) {
         if (!strcmp(kv_str(c, "obs", ""), "sparse")) { sparse = 1; sweep_now = false; }
+        if (!strcmp(kv_str(c, "phys", ""), "quiet")) { quiet = 1; dump_now = false; }
         if (D[k]) { o("st=- busy"); o_sep(); o("-"); return; }
         CC_DequeConf conf; cc_deque_conf_init(&conf);
         conf.capacity = kv_u64(c, "cap", conf.capacity);
@@ -48,6 +51,7 @@ static void do_op(Cmd *c) {
         o_stat(st);
     } else if (is_op(c, "new_default")) {
         if (!strcmp(kv_str(c, "obs", ""), "sparse")) { sparse = 1; sweep_now = false; }
+        if (!strcmp(kv_str(c, "phys", ""), "quiet")) { quiet = 1; dump_now = false; }
         if (D[k]) { o("st=- busy"); o_sep(); o("-"); return; }
         CC_Deque *d = NULL; st = cc_deque_new(&d); D[k] = st == CC_OK ? d : NULL; o_stat(st);
     } else if (is_op(c, "destroy")) {            /* end of history: release every live object */
